@@ -184,12 +184,12 @@ def classify(mp, gen_text, diags):
             host_fn = dict(key=name, repo_file="(unit prelude)", repo_line=pl, props=lprops)
         failures.append(dict(
             function=host_fn["key"], repo_file=host_fn["repo_file"], repo_line=host_fn["repo_line"],
-            props=host_fn.get("props") or [],
+            props=(clause["strength"][4:].replace(","," ").split() if clause and clause["strength"].startswith("for ") else (host_fn.get("props") or [])),
             clause=(clause["name"] if clause else None),
             clause_owner=(clause_fn["key"] if clause_fn else None),
             clause_text=clause_text if clause else None,
             clause_src_line=(clause["src_line"] if clause else None),
-            strength=(clause["strength"] if clause else "body"),
+            strength=(("property" if clause["strength"].startswith("for ") else clause["strength"]) if clause else "body"),
             prelude_clause=prelude_clause,
             site=site_text, message=msg, rendered=d.get("rendered", ""),
         ))
